@@ -94,6 +94,9 @@ def cases(tier):
         yield dict(nch=nch, idlen=idlen, resmode=resmode, serial0=serial0, icodes=icodes, models=models, apr=apr, extras=extras, fmt="mmCIF")
         if idlen in (1,) and resmode in ("small", "9999", "negative") and not isinstance(serial0, str) and serial0 + nch * 2 * apr * models < 99990:
             yield dict(nch=nch, idlen=idlen, resmode=resmode, serial0=serial0, icodes=icodes, models=models, apr=apr, extras=extras, fmt="PDB")
+        if nch <= 2 and not extras and models == 1 and not isinstance(serial0, str):
+            # a file without the optional items auth_atom_id / auth_comp_id: atom and residue names are in the label items only
+            yield dict(nch=nch, idlen=idlen, resmode=resmode, serial0=serial0, icodes=icodes, models=models, apr=apr, extras=extras, fmt="mmCIF", no_auth_names=True)
         if idlen in (1, 2) and nch <= 3 and not extras:
             # the same atoms with label ids that differ from the author ids (two-character label_asym_id, own label_seq_id): only the author ids are written to PDB
             yield dict(nch=nch, idlen=idlen, resmode=resmode, serial0=serial0, icodes=icodes, models=models, apr=apr, extras=extras, fmt="mmCIF", labels=True)
@@ -265,7 +268,7 @@ def run_case(case):
     if case["fmt"] == "PDB":
         r = observe(parser_v2.parse_pdb_atoms, enumio.emit_pdb(t))
     else:
-        r = observe(parser_v2.parse_cif_atoms, enumio.emit_cif(t, label_differs=bool(case.get("labels"))))
+        r = observe(parser_v2.parse_cif_atoms, enumio.emit_cif(t, label_differs=bool(case.get("labels")), omit_items=("auth_atom_id", "auth_comp_id") if case.get("no_auth_names") else ()))
     if r[0] == "exc":
         return dict(nontrivial=True, outcome="parse-exc", violations=[viol("parse:" + r[1], "parser raised " + r[2])])
     df = r[1]
